@@ -337,6 +337,7 @@ def run(tier, seed):
                 oc.violation({'property': PROP, 'kind': 'correspondence-broken',
                               'unchecked': 'correspondence model<->implementation on histories',
                               'history': r['hist'], 'final': r['final'], 'first_difference': dis}, found_input=False)
+    sem = common.pysem_stage(oc, PROP, [], seed, tier, effects=True)
     if not proof_ok and not oc.violations:
         oc.violation({'property': PROP, 'kind': 'proof-obligation-broken', 'unchecked': lean.get('failed'),
                       'build_output': lean.get('build_output', '')[-3000:]}, found_input=False)
@@ -346,6 +347,7 @@ def run(tier, seed):
     coverage.update({
         'checker_cmd': lean['checker_cmd'], 'trusted_base': common.TRUSTED_BASE, 'theorems': lean.get('theorems', []),
         'axioms': lean.get('axioms', {}),
+        **sem,
         'evaluations': len(results), 'distinct_nontrivial': len(nontriv),
         'rule': 'random histories: a mutation stream (add operation / nest / apply / flatten / copy / registry duration / '
                 'enter-leave global override) with observations (list+times+acquisition indices, duration, channels, counts, '
